@@ -331,6 +331,12 @@ class Algebra:
                 if c2.denominator == 1:
                     comps.append((int(c2), ("halfpi",)))
                     continue
+            if m == ((("V", "d2r"), 1),):
+                # a literal number of degrees: multiples of 90 are exact
+                c90 = c / 90
+                if c90.denominator == 1:
+                    comps.append((int(c90), ("halfpi",)))
+                    continue
             p, q = c.numerator, c.denominator
             comps.append((p, ("B", ((m, Fraction(1, q)),))))
         return comps
